@@ -71,6 +71,34 @@ CLAIMS["C15"] = {
             "outside (CBMC runs out of memory on drop/clone glue of Value; measured). Trusted: Kani/CBMC.",
 }
 
+CLAIMS["C03"] = {
+    "engine": "E2-mirsym + E1-kani",
+    "design_ref": "DESIGN.md §1 C03",
+    "technique": "symbolic execution of next_value/next_datum MIR with z3 (depth-counter protocol as a ranking "
+                 "argument); Kani totality harnesses on the reader kernels",
+    "text": "For every remaining depth, token kind and callee behaviour the solver decides that every return path of "
+            "next_value/next_datum restores the depth counter, every re-entrant call (builders, quote shorthands) runs "
+            "at a strictly smaller non-zero depth (so each call-graph cycle decreases a u8: nesting is bounded through "
+            "any construct), no counter underflow, limit error only below 2 remaining levels, initial budget in "
+            "[101,200]; number-scanner and whitespace kernels have no reachable panic (C05/C12 claims); reader kernels "
+            "are panic-free for all inputs <= 3 bytes (Kani).",
+    "note": "Whole-parser 'arbitrary bytes' executions (exhaustive <=3-byte strings through every entry point, 10^6-"
+            "deep inputs as runs) are enumeration, not this technique; the solver claim is the protocol plus kernel "
+            "totality. parse_token and the builders are stubbed as arbitrary-result callees in the depth claim.",
+}
+CLAIMS["C12"] = {
+    "engine": "E2-mirsym + E1-kani",
+    "design_ref": "DESIGN.md §1 C12",
+    "technique": "symbolic execution of parse_whitespace and the iterator adapters (z3, loop induction); Kani on the "
+                 "token-ending scanners",
+    "text": "The solver decides that parse_whitespace skips exactly SP/TAB/LF/CR/FF and ';' comments to LF/EOF for any "
+            "amount of trivia, hands back the first other byte unconsumed, never fails except on a failing read; that "
+            "the three iteration adapters are next_*().transpose() (terminate on Ok(None)); and (Kani) that every "
+            "scanner that ends a token by lookahead stops before each trivia byte.",
+    "note": "Concatenations of whole printed values and interleaved call histories are outside; the progress clause is "
+            "claimed per function, not for whole runs.",
+}
+
 NOT_APPLICABLE = {
     "C09": "each point of the quantifier is a Rust program that must be compiled; the macro consumes proc_macro2 "
            "token trees produced by rustc's lexer; Kani ICEs compiling proc_macro2 and the code is String/Vec/"
